@@ -956,9 +956,13 @@ class WorkflowConductor(object):
             # is completed, get the task result and context which is required to evaluate the
             # the condition if a retry for the task is required.
             # If there is a failure while evaluating the retry condition, fail the workflow.
+            # A report that does not change the status of an already completed task (i.e. a
+            # late or duplicate report) must not reopen it: its transitions are already decided.
             try:
-                retry_required = self.get_workflow_status() in statuses.ACTIVE_STATUSES and (
-                    self._evaluate_task_retry(task_state_entry, current_ctx)
+                retry_required = (
+                    new_task_status != old_task_status
+                    and self.get_workflow_status() in statuses.ACTIVE_STATUSES
+                    and self._evaluate_task_retry(task_state_entry, current_ctx)
                 )
             except Exception as e:
                 self.log_error(e, task_id=task_id, route=route)
